@@ -382,6 +382,103 @@ example :
     outcomeOf ⟨true, false, false⟩ ⟨400, 250, 0, 300, 0, 0⟩ 0 [⟨0, []⟩, ⟨0, [(0, .complete)]⟩] 1
       = some (.closed 400 .idle 0) := by decide
 
+/-! ## E′. … however many they are, in whatever phase: connections share nothing but the accept loop
+
+Lₛ = ⟨idle 2000, readHeader 2000, read 0, tls 2000, proxyHdr 2000, write 0⟩ in the examples. -/
+
+/-- any number of peers, each with a script of its own (stalled in its PROXY header, in a handshake, idle, in a
+    request head or body, silent or dribbling after an intercepted CONNECT — or well-behaved), connected no
+    later than a client `q`: `q` is handed to its goroutine the moment it connects and its whole fate — every
+    phase it goes through, when and where it is closed — is the fate it has when it is the only connection of
+    the listener.  No hypothesis on the length of `stalled`. -/
+theorem c15_good_client_start_independent_of_stalled_list (S : Stacking) (L : Limits) (stalled : List Peer)
+    (q : Peer) (f : Nat) (hf : f ≤ q.arrive) (hpre : ∀ p ∈ stalled, p.arrive ≤ q.arrive) :
+    (starts S L f (stalled ++ [q]))[stalled.length]? = some q.arrive ∧
+    outcomeOf S L f (stalled ++ [q]) stalled.length = outcomeOf S L q.arrive [q] 0 := by
+  have hlast := runningMax_append_last f (stalled.map (·.arrive)) q.arrive hf
+    (by intro a ha; obtain ⟨p, hp, rfl⟩ := List.mem_map.mp ha; exact hpre p hp)
+  rw [List.length_map] at hlast
+  refine ⟨by rw [starts_eq, List.map_append, List.map_cons, List.map_nil]; exact hlast, ?_⟩
+  unfold outcomeOf
+  rw [serve_eq, serve_eq, List.map_append, List.map_cons, List.map_nil, List.getElem?_map, hlast]
+  simp [runningMax]
+
+example : outcomeOf ⟨false, true, false⟩ ⟨2000, 2000, 0, 2000, 2000, 0⟩ 0
+      (List.replicate 300 ⟨0, [(1, .data)]⟩ ++ [⟨100, [(105, .complete), (106, .head .noBody)]⟩]) 300
+    = some (.stays ⟨.waitingForOrigin, 106, none⟩) := by
+  have h := (c15_good_client_start_independent_of_stalled_list ⟨false, true, false⟩ ⟨2000, 2000, 0, 2000, 2000, 0⟩
+    (List.replicate 300 ⟨0, [(1, .data)]⟩) ⟨100, [(105, .complete), (106, .head .noBody)]⟩ 0 (by decide)
+    (by intro p hp; rw [List.eq_of_mem_replicate hp]; decide)).2
+  rw [List.length_replicate] at h
+  rw [h]
+  decide
+
+/-- the code takes nothing from a shared stock on the way to a server-side handshake: whatever handshakes are
+    in progress (`held`: any number, ending whenever or never), the handshake of every connection begins —
+    and its time-out starts counting — the instant the connection reaches it -/
+theorem c15_handshake_begins_when_reached (L : Limits) (now : Nat) (held : List (Option Nat))
+    (rs : List HsReq) : hsBegins none L now held rs = rs.map fun r => some r.reach :=
+  hsBegins_none L now held rs
+
+example : hsBegins none ⟨2000, 2000, 0, 2000, 2000, 0⟩ 0 (List.replicate 64 none) [⟨100, [(105, .complete)]⟩]
+    = [some 100] := by decide
+
+/-- … so the population of a TLS listener is `outcomeOf`: every connection on its own -/
+theorem c15_tls_population_is_every_connection_alone (S : Stacking) (L : Limits) (hp : S.proxy = false)
+    (ht : S.tls = true) (free : Nat) (ps : List Peer) (k : Nat) (hk : k < ps.length) :
+    (outcomesPool none S L free ps)[k]? = some (outcomeOf S L free ps k) := by
+  have hk' : k < (runningMax free (ps.map (·.arrive))).length := by
+    rw [runningMax_length, List.length_map]; exact hk
+  have e1 : ps[k]? = some ps[k] := List.getElem?_eq_getElem hk
+  have e2 : (runningMax free (ps.map (·.arrive)))[k]? = some (runningMax free (ps.map (·.arrive)))[k] :=
+    List.getElem?_eq_getElem hk'
+  unfold outcomesPool outcomeOf
+  rw [hsBegins_none, serve_eq, starts_eq]
+  simp only [List.getElem?_map, List.zip, List.getElem?_zipWith, e1, e2, Option.map_some, accepted, hp, ht]
+  simp
+
+example : outcomesPool none ⟨false, true, false⟩ ⟨2000, 2000, 0, 2000, 2000, 0⟩ 0
+      [⟨0, []⟩, ⟨0, [(7, .data)]⟩, ⟨100, [(105, .complete)]⟩]
+    = [some (.closed 2000 .tlsHandshake 0), some (.closed 2000 .tlsHandshake 0), some (.closed 2105 .idle 105)] := by
+  decide
+
+/-- a handshake whose peer sends nothing that completes it occupies the proxy until its own limit — that is
+    how long a slot of a pool would be held -/
+theorem c15_stalled_handshake_lasts_until_its_limit (L : Limits) (b : Nat) (script : List (Nat × Ev))
+    (h : ∀ x ∈ script, x.2 = .data) : hsEnd L b script = dl L.tls b :=
+  hsEnd_stalled L b script h
+
+example : hsEnd ⟨2000, 2000, 0, 2000, 2000, 0⟩ 3 [(9, .data), (500, .data)] = some 2003 := by decide
+
+/-- NOT the code — handshakes let in through a pool of `n ≥ 1` slots, for every `n`: `n` peers that stall in
+    their handshake take all slots, and a well-behaved client that reaches its handshake at any `a` before
+    their cut-off begins it only AT the cut-off, a whole handshake timeout after the stalled peers came -/
+theorem c15_handshake_pool_full_delays_to_first_cutoff (n : Nat) (hn : 0 < n) (L : Limits) (a : Nat)
+    (ha : a < L.tls) (s : List (Nat × Ev)) :
+    hsBegins (some n) L 0 [] (List.replicate n ⟨0, []⟩ ++ [⟨a, s⟩]) =
+      List.replicate n (some 0) ++ [some L.tls] := by
+  have := hsBegins_pool_fill n L (by omega) a ha s n 0 (by omega) hn
+  simpa using this
+
+/-- kernel-checked witness that a pool of handshake slots is refuted by the property (TLS listener, handshake
+    timeout 2000, pool of 4): behind FOUR peers stalled in their handshake the well-behaved client that
+    connects at 100 begins its handshake at 2000 and is idle from 2005 — in the code from 105, as behind three
+    such peers in the variant (fewer stalled peers than slots show nothing) -/
+theorem c15_handshake_pool_refuted :
+    outcomesPool (some 4) ⟨false, true, false⟩ ⟨2000, 2000, 0, 2000, 2000, 0⟩ 0
+        (List.replicate 4 ⟨0, []⟩ ++ [⟨100, [(105, .complete)]⟩]) =
+      List.replicate 4 (some (.closed 2000 .tlsHandshake 0)) ++ [some (.closed 4000 .idle 2000)] ∧
+    outcomesPool none ⟨false, true, false⟩ ⟨2000, 2000, 0, 2000, 2000, 0⟩ 0
+        (List.replicate 4 ⟨0, []⟩ ++ [⟨100, [(105, .complete)]⟩]) =
+      List.replicate 4 (some (.closed 2000 .tlsHandshake 0)) ++ [some (.closed 2105 .idle 105)] ∧
+    outcomesPool (some 4) ⟨false, true, false⟩ ⟨2000, 2000, 0, 2000, 2000, 0⟩ 0
+        (List.replicate 3 ⟨0, []⟩ ++ [⟨100, [(105, .complete)]⟩]) =
+      List.replicate 3 (some (.closed 2000 .tlsHandshake 0)) ++ [some (.closed 2105 .idle 105)] ∧
+    -- a fifth stalled peer is not even cut off at ITS limit: its handshake begins when the first four end
+    outcomesPool (some 4) ⟨false, true, false⟩ ⟨2000, 2000, 0, 2000, 2000, 0⟩ 0 (List.replicate 5 ⟨0, []⟩) =
+      List.replicate 4 (some (.closed 2000 .tlsHandshake 0)) ++ [some (.closed 4000 .tlsHandshake 2000)] := by
+  decide
+
 /-! ## F. The write deadline: armed when the proxy starts writing the response, never while it waits for the origin
 
 `writeStart` (`ws` below) = the instant `writeResponse` is entered: the origin's response head, the dialled
